@@ -160,7 +160,11 @@ fn plan_decode(s: &str) -> Vec<PlanEntry> {
         .collect()
 }
 
+/// the last few panic messages (all threads); lets a failing execution name e.g. a worker thread that died
+static RECENT: std::sync::Mutex<Vec<String>> = std::sync::Mutex::new(Vec::new());
+
 struct Outcome {
+    panics: Vec<String>,
     res: Res,
     trace: hook::ExecTrace,
     events: usize,
@@ -173,6 +177,7 @@ fn run_one(def: &ScenDef, seed: u64, plan: &[PlanEntry], a: &Args) -> Outcome {
     hook::ARMED_CLAMP_US.store(u64::MAX, SeqCst);
     let mut x = Exec::new(seed, a.workers, a.thorough, !plan.is_empty() || a.noise != 0);
     hook::begin_exec(plan, a.noise);
+    RECENT.lock().unwrap_or_else(|e| e.into_inner()).clear();
     let t0 = Instant::now();
     let res = (def.f)(&mut x);
     let elapsed_us = t0.elapsed().as_micros() as u64;
@@ -192,7 +197,8 @@ fn run_one(def: &ScenDef, seed: u64, plan: &[PlanEntry], a: &Args) -> Outcome {
     if res.is_err() {
         std::mem::forget(x);
     }
-    Outcome { res, trace, events, desc, elapsed_us, rendered }
+    let panics = RECENT.lock().unwrap_or_else(|e| e.into_inner()).iter().filter(|l| !(l.starts_with('P') || l.starts_with("ARM") || l.starts_with("OWNER") || l.starts_with("CHILD") || l.starts_with("pred") || l.starts_with("probe") || l.starts_with("<non-string"))).cloned().collect();
+    Outcome { panics, res, trace, events, desc, elapsed_us, rendered }
 }
 
 struct Stats {
@@ -213,7 +219,6 @@ fn main() {
     if std::env::var_os("VERIF_PANIC_MSGS").is_none() {
         // scenario panics (fault injection) are expected by the hundreds: keep stderr readable, but
         // remember the last few so that a fatal (non-unwinding) panic can be explained
-        static RECENT: std::sync::Mutex<Vec<String>> = std::sync::Mutex::new(Vec::new());
         std::panic::set_hook(Box::new(|info| {
             let msg = info.payload().downcast_ref::<&str>().map(|s| s.to_string()).or_else(|| info.payload().downcast_ref::<String>().cloned()).unwrap_or_else(|| "<non-string payload>".into());
             let line = format!("{} at {}", msg, info.location().map(|l| l.to_string()).unwrap_or_default());
@@ -285,7 +290,7 @@ fn main() {
                     ""
                 };
                 let rec = format!(
-                    "{{\"kind\":{},\"msg\":{},\"scenario\":{},\"workers\":{},\"seed\":{},\"seed_index\":{},\"scenario_seed\":{},\"plan_index\":{},\"plan\":{},\"plan_enc\":{},\"plan_hit\":{},\"class\":{},\"instance\":{},\"events\":{},\"hook_trace\":{}}}",
+                    "{{\"kind\":{},\"msg\":{},\"scenario\":{},\"workers\":{},\"seed\":{},\"seed_index\":{},\"scenario_seed\":{},\"plan_index\":{},\"plan\":{},\"plan_enc\":{},\"plan_hit\":{},\"class\":{},\"instance\":{},\"unexpected_panics\":{},\"events\":{},\"hook_trace\":{}}}",
                     jstr(f.kind()),
                     jstr(f.msg()),
                     jstr(def.name),
@@ -299,6 +304,7 @@ fn main() {
                     hit,
                     jstr(class),
                     jstr(&o.desc),
+                    jarr(&o.panics),
                     jarr(&o.rendered),
                     jarr(&o.trace.render(80))
                 );
